@@ -508,14 +508,23 @@ Proof. intros v st I. simpl. destruct (view_of v (views st)); [|exact I]. apply 
 Lemma v_step_tagadd : forall st, inv10 st -> inv10 (stepm st ATagAdd).
 Proof. intros st I. simpl. apply inv10_start_tagging. apply (inv10_same st); auto. Qed.
 
+Lemma v_step_tagdel : forall u h st, inv10 st -> inv10 (stepm st (ATagDel u h)).
+Proof. intros u h st I. simpl. destruct (ntags st =? 0); [exact I|]. apply (inv10_same st); auto. Qed.
+
+Lemma v_step_tagupd : forall u h st, inv10 st -> inv10 (stepm st (ATagUpd u h)).
+Proof.
+  intros u h st I. simpl. destruct (ntags st =? 0); [exact I|].
+  apply inv10_start_tagging. apply (inv10_same st); auto.
+Qed.
+
 Lemma v_step_start_tag : forall st, inv10 st -> inv10 (stepm st (AStart KTag)).
 Proof.
-  intros st I. simpl. destruct (tjob st) as [[snap [|]]|]; try exact I. apply (inv10_same st); auto.
+  intros st I. simpl. destruct (tjob st) as [[snap [|] vv]|]; try exact I. apply (inv10_same st); auto.
 Qed.
 
 Lemma v_step_complete_tag : forall st, inv10 st -> inv10 (stepm st (AComplete KTag)).
 Proof.
-  intros st I. simpl. destruct (tjob st) as [[snap [|]]|]; try exact I.
+  intros st I. simpl. destruct (tjob st) as [[snap [|] vv]|]; try exact I.
   apply inv10_set_used_disk. apply inv10_start_merge'. apply inv10_start_tagging.
   apply (inv10_same st); auto.
 Qed.
@@ -709,12 +718,14 @@ Qed.
 
 Theorem step_inv10 : forall st a, inv13 st -> inv10 st -> inv10 (stepm st a).
 Proof.
-  intros st a I3 I. destruct a as [ks|v|v|v| |k|k].
+  intros st a I3 I. destruct a as [ks|v|v|v| |u h|u h|k|k].
   - apply v_step_import; auto.
   - apply v_step_view; auto.
   - apply v_step_read; auto.
   - apply v_step_release; auto.
   - apply v_step_tagadd; auto.
+  - apply v_step_tagdel; auto.
+  - apply v_step_tagupd; auto.
   - destruct k; [apply v_step_start_import|apply v_step_start_merge|apply v_step_start_tag]; auto.
   - destruct k; [apply v_step_complete_import|apply v_step_complete_merge|apply v_step_complete_tag]; auto.
 Qed.
@@ -762,17 +773,19 @@ Proof. intros n fs H f Hf. apply H. eapply in_skipn. eauto. Qed.
 
 Lemma step_files_ok : forall st a, inv10 st -> files_ok (indexes st) -> files_ok (indexes (stepm st a)).
 Proof.
-  intros st a I U. destruct a as [ks|v|v|v| |k|k]; simpl.
+  intros st a I U. destruct a as [ks|v|v|v| |wu h|wu h|k|k]; simpl.
   - destruct ks; auto. destruct (ascending _ _); auto. destruct (_ =? _)%nat; auto.
   - destruct (view_of v (views st)); auto.
   - destruct (view_of v (views st)) as [[|]|]; auto. destruct rf; auto.
   - destruct (view_of v (views st)); auto.
   - rewrite indexes_start_tagging. exact U.
+  - destruct (ntags st =? 0); auto.
+  - destruct (ntags st =? 0); auto. rewrite indexes_start_tagging. exact U.
   - destruct k.
     + destruct (ijob st) as [[caps nx snap [|] cr un]|]; auto.
       destruct (from_pcap capdb (known st) caps snap) as [[es usednew] allk]. auto.
     + destruct (mjob st) as [[off snap [|] mg]|]; auto.
-    + destruct (tjob st) as [[snap [|]]|]; auto.
+    + destruct (tjob st) as [[snap [|] vv]|]; auto.
   - destruct k.
     + destruct (ijob st) as [[caps nx snap [|] cr un]|] eqn:Hj; auto.
       rewrite indexes_start_merge, indexes_start_tagging.
@@ -797,7 +810,7 @@ Proof.
       intros f Hf. apply in_app_or in Hf. destruct Hf as [Hf|Hf]; [eapply files_ok_firstn; eauto|].
       simpl in Hf. destruct Hf as [Hf|Hf]; [|eapply files_ok_skipn; eauto].
       subst f. simpl. apply merge_nodup. rewrite <- M1. apply files_ok_firstn. apply files_ok_skipn. exact U.
-    + destruct (tjob st) as [[snap [|]]|]; auto.
+    + destruct (tjob st) as [[snap [|] vv]|]; auto.
       rewrite indexes_set_used_disk, indexes_start_merge, indexes_start_tagging. exact U.
 Qed.
 
@@ -847,24 +860,26 @@ Qed.
 Lemma view_step_stable : forall st a v s, rf = false -> view_of v (views st) = Some s -> a <> ARelease v ->
   view_of v (views (stepm st a)) = Some s.
 Proof.
-  intros st a v s Hrf H Ha. destruct a as [ks|w|w|w| |k|k]; simpl.
+  intros st a v s Hrf H Ha. destruct a as [ks|w|w|w| |wu h|wu h|k|k]; simpl.
   - destruct ks; auto. destruct (ascending _ _); auto. destruct (_ =? _)%nat; auto.
   - destruct (view_of w (views st)) eqn:E; auto. simpl. rewrite view_of_app, H. reflexivity.
   - destruct (view_of w (views st)) as [[|]|]; auto. rewrite Hrf. auto.
   - destruct (view_of w (views st)) eqn:E; auto. simpl. rewrite view_of_del_other; auto. congruence.
   - rewrite views_start_tagging. exact H.
+  - destruct (ntags st =? 0); auto.
+  - destruct (ntags st =? 0); auto. rewrite views_start_tagging. exact H.
   - destruct k.
     + destruct (ijob st) as [[caps nx snap [|] cr un]|]; auto.
       destruct (from_pcap capdb (known st) caps snap) as [[es usednew] allk]. auto.
     + destruct (mjob st) as [[off snap [|] mg]|]; auto.
-    + destruct (tjob st) as [[snap [|]]|]; auto.
+    + destruct (tjob st) as [[snap [|] vv]|]; auto.
   - destruct k.
     + destruct (ijob st) as [[caps nx snap [|] cr un]|]; auto.
       rewrite views_start_merge, views_start_tagging.
       destruct (skipn (length caps) (queue st)); exact H.
     + destruct (mjob st) as [[off snap [|] mg]|]; auto.
       unfold set_used_disk. simpl. rewrite views_start_merge. destruct mg; exact H.
-    + destruct (tjob st) as [[snap [|]]|]; auto.
+    + destruct (tjob st) as [[snap [|] vv]|]; auto.
       unfold set_used_disk. simpl. rewrite views_start_merge, views_start_tagging. exact H.
 Qed.
 
